@@ -220,7 +220,7 @@ class LS(object):
         solution : Tuple
             Solution found (array_like) and optimization information (dictionary).
         """
-        solution = least_squares(self.func, self.x0, jac=self.jacfun, \
+        solution = least_squares(self.func, self.x0, jac=self.jacfun if self.jacfun is not None else '2-point', \
                                 method=self.method, loss=self.loss, xtol=self.tol, max_nfev=self.maxit)
         info = {"success": solution['success'],
                 "message": solution['message'],
